@@ -48,8 +48,48 @@ type Pointer struct {
 }
 
 type SliceVal struct {
-	obj           *Object // backing array object (holds *Agg); nil == nil slice
+	obj           *Object // object holding the backing array; nil == nil slice
+	pre           string  // encoded path ("i.j.") from the object's value to the backing array (empty: the object is the array)
 	off, len, cap int
+}
+
+func decodePath(pre string) []int {
+	if pre == "" {
+		return nil
+	}
+	var out []int
+	cur := 0
+	for i := 0; i < len(pre); i++ {
+		if pre[i] == '.' {
+			out = append(out, cur)
+			cur = 0
+		} else {
+			cur = cur*10 + int(pre[i]-'0')
+		}
+	}
+	return out
+}
+
+// sliceArr returns the backing array of s in the given heap
+func sliceArr(heap map[*Object]Value, s SliceVal) *Agg {
+	v := heap[s.obj]
+	if s.pre != "" {
+		v = loadPath(v, decodePath(s.pre))
+	}
+	a, ok := v.(*Agg)
+	if !ok {
+		unsupported("slice backing store is %T", v)
+	}
+	return a
+}
+
+// sliceSetArr replaces the backing array of s
+func sliceSetArr(heap map[*Object]Value, s SliceVal, a *Agg) {
+	if s.pre == "" {
+		heap[s.obj] = a
+		return
+	}
+	heap[s.obj] = storePath(heap[s.obj], decodePath(s.pre), a)
 }
 
 type IfaceVal struct {
